@@ -488,7 +488,7 @@ Proof.
     { unfold get_a. rewrite Nk, Ea. cbn [lookup]. rewrite String.eqb_refl. reflexivity. }
     assert (A1 : sa sol (mname m) k = 1).
     { apply (sol_const _ _ _ _ _ _ _ OK m k 1); auto using fixed_in_problem.
-      unfold model_a. rewrite Hf. cbn [orb]. rewrite Ga. reflexivity. }
+      unfold model_a, model_a_with. rewrite Hf. cbn [orb]. rewrite Ga. reflexivity. }
     destruct Names as [ND V].
     assert (Oth : forall m', In m' mods -> m' <> m -> sa sol (mname m') k <= 1 - t).
     { intros m' Hm' Hne.
